@@ -60,6 +60,38 @@ func (p c12) Gen(t *rapid.T, env *Env) (*Case, []*Out) {
 			stdin = true
 		}
 	}
+	// YAML mappings whose keys are not strings and collide once they are turned into strings (7 and 7.0, "true" and
+	// True): which one survives must not depend on a map order. Duplicate keys make "the key order inside an object"
+	// meaningful, so such worlds are not key-permuted.
+	collide := false
+	if afs := argFiles(w, args); !stdin && len(afs) > 0 && rapid.IntRange(0, 5).Draw(t, "yamlcollide") == 0 {
+		for _, f := range afs {
+			if !f.YAML || !f.RootObj {
+				continue
+			}
+			props, _ := f.Doc.Get("properties")
+			po, ok := props.(Obj)
+			if !ok {
+				continue
+			}
+			po = append(append(Obj{}, po...),
+				KV{YAMLRawKey + "7", Obj{{"type", "integer"}}}, KV{YAMLRawKey + "7.0", Obj{{"type", "string"}}},
+				KV{"true", Obj{{"type", "integer"}}}, KV{YAMLRawKey + "True", Obj{{"type", "boolean"}}},
+				KV{YAMLRawKey + "0x10", Obj{{"type", "number"}}}, KV{"16", Obj{{"type", "array"}, {"items", Obj{{"type", "string"}}}}})
+			nf := *f
+			nf.Doc = append(Obj{}, f.Doc...).Set("properties", po)
+			cp := *w
+			cp.Files = append([]*SFile{}, w.Files...)
+			for i := range cp.Files {
+				if cp.Files[i] == f {
+					cp.Files[i] = &nf
+				}
+			}
+			w = &cp
+			collide = true
+			break
+		}
+	}
 	env.Stats.NoteFeat(w.Feat)
 	var respell func(t *rapid.T) []string
 	if afs := argFiles(w, args); len(afs) == len(args) && len(afs) > 0 {
@@ -154,6 +186,10 @@ func (p c12) Gen(t *rapid.T, env *Env) (*Case, []*Out) {
 				}
 				kinds = append(kinds, "reloc")
 			case 7:
+				if collide {
+					kinds = append(kinds, "repeat")
+					return
+				}
 				ko = &KeyOrder{Choices: rapid.SliceOfN(rapid.IntRange(0, 7), 1, 8).Draw(t, "keyperm")}
 				kinds = append(kinds, "keyperm")
 			case 8:
@@ -205,6 +241,10 @@ func (p c12) Gen(t *rapid.T, env *Env) (*Case, []*Out) {
 				sp.MapDefault = "reverse"
 				sp.Chunks = []int{1}
 				prefix = prefixChoices[0]
+				if collide {
+					kinds = append(kinds, "map:reverse", "chunks", "reloc")
+					return
+				}
 				ko = &KeyOrder{Choices: []int{3, 1, 2, 5}}
 				kinds = append(kinds, "map:reverse", "chunks", "reloc", "keyperm")
 			}
